@@ -154,6 +154,30 @@ def run(ctx):
                                     seen.add(t); nxt.append(t)
                 frontier = nxt
             states_seen += len(seen)
+    # long waiting periods: the rule holds for every wait_time, in particular beyond the range of small integer types
+    lrng = __import__("numpy").random.default_rng(ctx.seed + 13)
+    for w in ((254, 255, 256, 257, 300) if ctx.quick else (254, 255, 256, 257, 300, 65535, 65536, 66000)):
+        for sens in (1, 2):
+            e = el.ConfirmedElection(sens, w)
+            lines.append(f"new el.confirmed {sens} {w}"); expect.append(None)
+            st = None
+            calls = w + 40
+            alarm_at = {0: 0, 1: int(lrng.integers(1, 30))}
+            for t in range(calls):
+                v = tuple("drift" if alarm_at[i] == t else ("warning" if (i == 1 and t % 97 == 5) else None) for i in range(2))
+                out = impl_call(e, v)
+                cs = e.wait_period_counters
+                spec = confirmed_spec(sens, w, st, v)
+                case = ("confirmed-long", sens, w, t)
+                vote(v, out + " | " + ("_" if cs is None else " ".join(str(int(x)) for x in cs)), case)
+                ctx.case(case, any(v) or (st is not None and any(st)))
+                if (out, None if cs is None else tuple(int(x) for x in cs)) != spec:
+                    ctx.fail(election="ConfirmedElection", sensitivity=sens, wait_time=w, call_index=t, vector=list(v),
+                             impl=[out, None if cs is None else [int(x) for x in cs]], spec=[spec[0], list(spec[1])],
+                             what="verdict / counters differ from the documented voter automaton during a long waiting period")
+                    break
+                st = spec[1]
+            ctx.count("confirmed-long-histories")
     ctx.extra["states"] = states_seen
     ctx.extra["transitions"] = transitions
     ctx.sample({"election": "ConfirmedElection(2,2)", "calls": [["drift", None], [None, "drift"]],
